@@ -98,6 +98,53 @@ class C10Monitor(X.Monitor):
                 self._check_filter_objects(ctx, lane, st, rec)
             elif rec["fn"] == "filter_object_results":
                 self._check_filter_results(ctx, lane, st, rec)
+        self._check_end_to_end(ctx, lane, st)
+
+    def _check_end_to_end(self, ctx, lane, st):
+        """Whatever calls the evaluator makes internally: the ground truth a frame result ends up with is exactly the
+        handed-in frame's objects that satisfy the evaluator's criteria and the per-frame critical criteria, and every
+        estimate that is still part of a result satisfies both sets of criteria too."""
+        if st.result is None or st.gt_snapshot is None:
+            return
+        cfg_params = V.filter_params(lane.config.filtering_params)
+        crit_params = V.filter_params(st.crit.filtering_params)
+        expect, undecided = [], set()
+        for g in st.gt_snapshot:
+            view = V.filter_view(g, st.ego_ref)
+            d1, m1 = ref.ref_is_target(view, True, cfg_params)
+            d2, m2 = ref.ref_is_target(view, True, crit_params)
+            if (not d1 and m1 >= st.eps) or (not d2 and m2 >= st.eps):
+                continue
+            if m1 < st.eps or m2 < st.eps:
+                undecided.add(id(g))
+                ctx.skip("boundary_skipped")
+                continue
+            expect.append(g)
+        got = [g for g in st.result.frame_ground_truth.objects if id(g) not in undecided]
+        if not all(id(g) in set(_ids(st.gt_snapshot)) for g in got):
+            return   # copies: judged by C13 `gt_from_this_frame`
+        ctx.probe("c10_end_to_end_checked")
+        if _ids(got) != _ids(expect):
+            exp_set, got_set = set(_ids(expect)), set(_ids(got))
+            extra = [V.filter_view(o, st.ego_ref) for o in got if id(o) not in exp_set]
+            missing = [V.filter_view(o, st.ego_ref) for o in expect if id(o) not in got_set]
+            kind = "keeps a ground truth that fails a configured criterion" if extra else (
+                "lacks a ground truth that satisfies every configured criterion" if missing else "changes the order of the ground truth")
+            ctx.violate("C10", "end_to_end", "the frame result %s" % kind,
+                        {"extra": extra[:2], "missing": missing[:2], "evaluator": _jsonable(cfg_params), "critical": _jsonable(crit_params)}, st.index)
+        est_cfg = dict(cfg_params)
+        est_crit = dict(crit_params)
+        est_crit["ignore_attributes"] = None   # result filtering judges attributes on the ground-truth side only
+        for r in st.result.object_results:
+            view = V.filter_view(r.estimated_object, st.ego_ref)
+            for name, params in (("evaluator's", est_cfg), ("critical", est_crit)):
+                d, m = ref.ref_is_target(view, False, params)
+                if m < st.eps:
+                    ctx.skip("boundary_skipped")
+                elif not d:
+                    ctx.violate("C10", "end_to_end", "a result keeps an estimate that fails the %s criteria" % name,
+                                {"view": view, "params": _jsonable(params)}, st.index)
+                    return
 
     # -- helpers --------------------------------------------------------------------------------------
     def _args(self, rec, first):
@@ -282,6 +329,48 @@ class MatchingMonitor(X.Monitor):
         for rec in st.calls:
             if rec["fn"] == "get_object_results":
                 self._check(ctx, lane, st, rec)
+        self._check_end_to_end(ctx, lane, st)
+
+    def _check_end_to_end(self, ctx, lane, st):
+        """Independent of how the evaluator calls its matcher: the pairs a frame result ends up with respect the radius
+        *configured* for the ground truth's label, join objects of one frame only, and an FP-validation result holds no
+        unpaired estimate."""
+        if st.result is None:
+            return
+        cfg = lane.config
+        radii = cfg.filtering_params.get("max_matchable_radii")
+        labels = [l.value for l in cfg.target_labels]
+        fpv = ctx.plan["config"]["task"] == "fp_validation"
+        seen_e, seen_g = set(), set()
+        for r in st.result.object_results:
+            e, g = r.estimated_object, r.ground_truth_object
+            if id(e) in seen_e or (g is not None and id(g) in seen_g):
+                ctx.violate("C01", "one_to_one", "an object appears in two results of one frame result", {}, st.index)
+                return
+            seen_e.add(id(e))
+            if g is None:
+                if fpv:
+                    ctx.violate("C01", "fp_validation_drops_unpaired", "an FP-validation frame result holds an unpaired estimate", {}, st.index)
+                    return
+                continue
+            seen_g.add(id(g))
+            if V.frame_of(e) != V.frame_of(g):
+                ctx.violate("C01", "same_frame_only", "a frame result pairs objects of frames %s / %s" % (V.frame_of(e), V.frame_of(g)), {}, st.index)
+                return
+            if radii is not None and V.label_of(g) in labels:
+                rj = radii[labels.index(V.label_of(g))]
+                if V.is_2d(g):
+                    d, slack = ref.roi_center_distance(V.roi_of(e), V.roi_of(g)), ref.ROI_CENTER_SLACK
+                else:
+                    d, slack = rm.dist3(V.pos_of(e), V.pos_of(g)), 0.0
+                if ref.near(d, rj) or abs(d - rj) <= slack:
+                    ctx.skip("boundary_skipped")
+                elif not d < rj:
+                    ctx.violate("C01", "within_radius", "a frame result pairs objects farther apart than the radius configured for the ground truth's label",
+                                {"distance": d, "radius": rj, "gt_label": V.label_of(g)}, st.index)
+                    return
+                else:
+                    ctx.probe("c01_configured_radius_checked")
 
     def _check(self, ctx, lane, st, rec):
         kw = rec["kwargs"]
